@@ -18,4 +18,3 @@ func vndLoopStepCRC16(data []byte, crc uint16, idx int) (crc2 uint16, idx2 int, 
 	}
 	panic("vndLoopStepCRC16: no 2-byte prefix reaches this state")
 }
-
